@@ -24,7 +24,7 @@ pub struct Input {
     pub segments: usize,
 }
 
-pub const FAMILIES: &[&str] = &["rects", "lattice", "circles", "combs", "starholes", "blobs", "cloud", "segs", "mantissa"];
+pub const FAMILIES: &[&str] = &["rects", "lattice", "circles", "combs", "starholes", "blobs", "tiles", "cloud", "segs", "mantissa"];
 
 fn c(x: f64, y: f64) -> Coord<f64> {
     Coord { x, y }
@@ -195,6 +195,28 @@ pub fn build(spec: &InputSpec) -> Input {
             a_valid = true;
             (MultiPolygon::new(ps), b)
         }
+        "tiles" => {
+            // a tiling: members share whole edges and corners (adjacent parcels), some tiles are
+            // missing (holes in the tiling), one tile may be split into two triangles
+            let k = n.max(1);
+            let mut ps = vec![];
+            for i in 0..k * k {
+                let (x, y) = ((i % k) as f64, (i / k) as f64);
+                match rng.below(8) {
+                    0 => {}
+                    1 => {
+                        ps.push(Polygon::new(LineString::new(vec![c(x, y), c(x + 1.0, y), c(x + 1.0, y + 1.0), c(x, y)]), vec![]));
+                        ps.push(Polygon::new(LineString::new(vec![c(x, y), c(x + 1.0, y + 1.0), c(x, y + 1.0), c(x, y)]), vec![]));
+                    }
+                    _ => ps.push(rect(x, y, x + 1.0, y + 1.0)),
+                }
+            }
+            if ps.is_empty() {
+                ps.push(rect(0.0, 0.0, 1.0, 1.0));
+            }
+            let b = MultiPolygon::new(vec![rect(0.5, 0.5, k as f64 - 0.25, k as f64 + 0.5), rect(k as f64 - 0.25, 0.0, k as f64 + 1.0, 1.0)]);
+            (MultiPolygon::new(ps), b)
+        }
         "mantissa" => {
             // many small triangles with uniform 53-bit doubles: sums are not exactly
             // representable, so a re-associated fold changes bits
@@ -294,6 +316,7 @@ pub fn gen_spec(rng: &mut Rng, family: &str, large: u8) -> InputSpec {
         ("combs", _) => 8400 + rng.below(3000),
         ("rects", _) => 1 + rng.below(14),
         ("starholes", _) => 1 + rng.below(30),
+        ("tiles", _) => 1 + rng.below(6),
         ("blobs", _) => 1 + rng.below(20),
         ("cloud", _) => 3 + rng.below(120),
         ("segs", _) => 2 + rng.below(14),
